@@ -12,3 +12,8 @@ package pb
 //@ func (*pb).DecodeRawEntry
 //@   requires validPB(p) && node != nil
 //@   ensures [decoded-entry-is-safe-to-use] err == nil ==> validEntry(result0) && fresh(result0)
+
+//@ func (*pb).Write
+//@   requires p != nil && ipfs != nil
+//@   requires typeis(obj, "*entry.Entry") ==> validEntry(obj.(iface.IPFSLogEntry)) && (obj.(*entry.Entry).Identity == nil || obj.(*entry.Entry).Identity.Signatures != nil)
+//@   ensures [write-reports-failure] err != nil ==> result0 == cidUndef
